@@ -1045,6 +1045,19 @@ func c23BuildCases(r *findings.Run) []c23Case {
 		content, cols, want := c23JSONFile(big, 50000, "\n", true)
 		cases = append(cases, c23Case{Kind: "json", Feature: big.Name, Desc: "50000 rows of ~125 bytes", Ext: ".json", Content: content, SQL: starSQL, Cols: cols, Want: want, NonTriv: true})
 	}
+	// long string fields: rows longer than the scanner's initial 4 KiB buffer and than bufio's default 64 KiB token
+	// size (the JSON scanner's limit is files.json.max_line_size_bytes = 1 MiB), in the first and in a later batch
+	for _, ln := range []int{4090, 4096, 5000, 65530, 70000} {
+		ln := ln
+		long := c23JSONTemplate{Name: fmt.Sprintf("long-field-%d", ln), Row: func(i int) []c23KV {
+			if i == 1 || i == 70 {
+				return []c23KV{kvInt("i", i), kvStr("s", strings.Repeat("y", ln))}
+			}
+			return []c23KV{kvInt("i", i), kvStr("s", "short"+strconv.Itoa(i))}
+		}}
+		content, cols, want := c23JSONFile(long, 72, "\n", true)
+		cases = append(cases, c23Case{Kind: "json", Feature: "long-field", Desc: fmt.Sprintf("72 rows, rows 1 and 70 carry a %d byte string", ln), Ext: ".json", Content: content, SQL: starSQL, Cols: cols, Want: want, NonTriv: true})
+	}
 	// column subsets / orders
 	{
 		content, cols, want := c23JSONFile(tpls[7], 70, "\n", true) // keyorder: i, a, b
